@@ -4,7 +4,8 @@
  *
  * usage: route_driver <case.json> | --serve <errfile>   (see forkserver.hpp; every case runs in a forked child)
  *
- * case := {"zones":[zone...],            children of the root zone "_world_" (always a Full zone in this version)
+ * case := {"xml": "<path of an XML platform file to load first>",        (optional)
+ *          "zones":[zone...],            children of the root zone "_world_" (always a Full zone in this version)
  *          "links":[link...], "routes":[route...], "bypass":[route...]    (of the root zone; optional)
  *          "pairs":[[src,dst],...]       names of hosts / routers
  *          "dump":bool}                  print every zone's vertices and links first
@@ -220,6 +221,10 @@ static sg4::NetZone* build_zone(sg4::NetZone* parent, const json& z, const std::
     if (z.contains("gateway") && not z["gateway"].is_null()) // a router of the cluster zone (created before sealing)
       zone->set_gateway(zone->add_router(z["gateway"].get<std::string>() + sfx));
     g_zones[name] = zone;
+    /* the leaves only exist once the zone is sealed: like the XML loader and the examples, seal it right away so that
+     * the routes of the parent zone can name them as gateways */
+    if (not z.value("lazy_seal", false))
+      zone->seal();
     return zone;
   }
   if (kind == "full")
@@ -283,13 +288,28 @@ static void preload()
   make_engine();
 }
 
+static double now_ms()
+{
+  struct timespec ts;
+  clock_gettime(CLOCK_MONOTONIC, &ts);
+  return ts.tv_sec * 1e3 + ts.tv_nsec / 1e6;
+}
+
 static int run_case(const std::string& text)
 {
+  const bool timing = getenv("VF_ROUTE_TIMING") != nullptr;
+  double t0         = now_ms();
   json c = json::parse(text);
   make_engine();
+  if (timing)
+    fprintf(stderr, "[timing] parse+engine %.1f ms\n", now_ms() - t0);
   auto* e    = sg4::Engine::get_instance();
   auto* root = e->get_netzone_root();
   try {
+    if (c.contains("xml")) { // a platform file instead of a description (flat <cluster>, <peer>, ... have no API form)
+      e->load_platform(c["xml"].get<std::string>());
+      root = e->get_netzone_root();
+    }
     json world      = json::object();
     world["kind"]   = "full";
     json members    = json::array();
@@ -302,13 +322,19 @@ static int run_case(const std::string& text)
       if (c.contains(k))
         world[k] = c[k];
     fill_zone(root, world, "");
+    if (timing)
+      fprintf(stderr, "[timing] filled %.1f ms\n", now_ms() - t0);
     e->seal_platform();
   } catch (const std::exception& ex) {
     out({{"build_err", ex.what()}});
     return 0;
   }
+  if (timing)
+    fprintf(stderr, "[timing] built+sealed %.1f ms\n", now_ms() - t0);
   if (c.value("dump", false))
     dump_zone(root->get_impl());
+  if (timing)
+    fprintf(stderr, "[timing] dumped %.1f ms\n", now_ms() - t0);
   int i = 0;
   for (auto const& p : c.value("pairs", json::array())) {
     json res;
@@ -341,6 +367,8 @@ static int run_case(const std::string& text)
     out(res);
   }
   out({{"done", 1}});
+  if (timing)
+    fprintf(stderr, "[timing] done %.1f ms\n", now_ms() - t0);
   return 0;
 }
 
